@@ -67,6 +67,10 @@ def run(ck):
         cases.append({"k": "rule", "id": ck.new_id(), "rule": rule_text(det, extra=extra), "docs": [D(d) for d in docs], "sw": ALL_SW,
                       "_det": det, "_docs": docs})
         ck.count("family:" + fam)
+    for c in rulebase.corpus_cases(ck, ALL_SW):
+        c["_det"] = None
+        c["_docs"] = []
+        cases.append(c)
     wit = rulebase.witness_cases(ck, "C01")
     for c in cases:
         c["otrees"] = True      # the optimised trees themselves are part of the compared line
